@@ -127,12 +127,20 @@ def extract(config="default", force=False):
 _cache = {}
 
 
+def norm_paths(text):
+    """one spelling for std paths across feature configurations (no_std prints core::/alloc::)"""
+    import re
+
+    text = re.sub(r"\b(?:generators::)?alloc::", "std::", text)
+    return re.sub(r"\bcore::", "std::", text)
+
+
 def load(config="default"):
     if config in _cache:
         return _cache[config]
     path, fresh = extract(config)
     with open(path) as f:
-        d = json.load(f)
+        d = json.loads(norm_paths(f.read()))
     F = Facts(d, config, path, fresh)
     _cache[config] = F
     return F
